@@ -6,7 +6,7 @@ import numpy as np
 from hypothesis import strategies as st
 
 from .. import gen, ref
-from ..core import cell
+from ..core import Abort, cell
 from . import _c03_helpers as H
 
 PROPERTY = "C03"
@@ -38,7 +38,20 @@ RULE = (
     "dense operands grown by assignment, on small and large shapes; clause values@explicit-zero separates the positions "
     "of stored zeros from the rest.  (calls) after every operator the operands must denote what they did before "
     "(<op>:operand-unchanged).  (boundaries) at a common position the second operand repeats, negates (a+b cancels "
-    "exactly) or ignores the first one's value."
+    "exactly) or ignores the first one's value.  "
+    "Round 3: (sizes) cells */large - three operand pairs / scalar cases per run and operand kind on (12,12,12), (40,45), "
+    "(6,7,6,7), (2500,) with 800..2400 stored nonzeros and on (30,30,30), (20,21,20) with 45..700, so that nnz*cells*ndims "
+    "and nnz(A)*nnz(B)*ndims straddle and mostly exceed 2**22 row comparisons; compact case expanded by a PRNG (simplest "
+    "Hypothesis example skipped, run seed mixed in); beyond 3000 cells the operators whose result marks every empty "
+    "position are not run for sparse/sparse and S != T (pyttb is quadratic in the cell count there).  Cells */huge: "
+    "modes longer than 2**40 / 2**53 / 2**60, more than 2**63 cells, subscripts at the mode ends and just above 2**53, "
+    "the operators with op(0,0)=0 (+ - * != < > and/or/xor; scalar: * / and the comparisons that are false at 0, unary "
+    "+-) judged entry by entry.  (near values) at a common position the second operand may also hold the first one's "
+    "value moved by one ulp .. relative 1e-6, the scalar a stored value moved likewise.  (dynamic range) value kinds "
+    "xtiny / xhuge (1e-200 / 1e+200): products and quotients underflow to zero / overflow; every entry is still one "
+    "IEEE operation.  (several live objects) for one operator per case (each gets its turn over the cases) the result and the operands are "
+    "edited in place in turn (S[subs] = v, T[...] = B) and all the others must stay exactly what they were "
+    "(<op>:<object>:changed-by:edit-of-<other>)."
 )
 ASSUMPTIONS = [
     "oracle: NumPy ufunc on the dense expansion of the operands; booleans compared as 0/1; -0.0 == 0.0; NaN == NaN",
@@ -59,12 +72,17 @@ ASSUMPTIONS = [
 
 
 def _info(case):
+    if ref.prod(case["shape"]) > 400:
+        return f"shape={case['shape']} nnz(a)={len(case['a']['subs'])}" + (
+            f" nnz(b)={len(case['b']['subs'])}" if "b" in case else f" c={case['c']!r}")
     return f"A={H.dense_of(case['shape'], case['a']).tolist()} a-stored={case['a']['subs']}" + (
         f" B={H.dense_of(case['shape'], case['b']).tolist()} b-stored={case['b']['subs']}" if "b" in case
         else f" c={case['c']!r}")
 
 
 def _body_spsp(ctx, case):
+    case = H.expand(case)
+    skip_ops = H.big_not_run("sp-sp", case)
     shape = case["shape"]
     A, B = H.dense_of(shape, case["a"]), H.dense_of(shape, case["b"])
     tags = H.tags_spsp(case)
@@ -75,15 +93,22 @@ def _body_spsp(ctx, case):
     uns = H.has_unsigned(case)
     ctx.label("dtypes-" + H.part_dtype(case["a"]) + "/" + H.part_dtype(case["b"]))
     for name in H.BINARY:
+        if name in skip_ops:
+            ctx.label("not-run:quadratic-at-this-size")
+            continue
         # fresh operands for every operator: a mutated operand must not leak into the next call
         with ctx.sut("construct"):
             S, S2 = H.sp_of(shape, case["a"]), H.sp_of(shape, case["b"])
-        H.run_op(ctx, f"{name}/sp-sp", ts, lambda: H.SUT[name](S, S2), lambda: H.NP[name](A, B), info,
-                 split=H.value_split(f"{name}/sp-sp", A, B, case), unsigned=uns)
+        R = H.run_op(ctx, f"{name}/sp-sp", ts, lambda: H.SUT[name](S, S2), lambda: H.NP[name](A, B), info,
+                     split=H.value_split(f"{name}/sp-sp", A, B, case), unsigned=uns)
         H.check_unchanged(ctx, f"{name}/sp-sp", (S, A), (S2, B))
+        if H.alias_turn(case, H.BINARY.index(name)):
+            H.check_alias(ctx, f"{name}/sp-sp", R, left=S, right=S2)
 
 
 def _body_sptn(ctx, case):
+    case = H.expand(case)
+    skip_ops = H.big_not_run("sp-tn", case)
     shape = case["shape"]
     A, B = H.dense_of(shape, case["a"]), H.dense_of(shape, case["b"])
     tags = H.tags_sptn(case)
@@ -94,14 +119,21 @@ def _body_sptn(ctx, case):
     uns = H.has_unsigned(case)
     ctx.label("dtypes-" + H.part_dtype(case["a"]) + "/" + H.part_dtype(case["b"]))
     for name in H.BINARY:
+        if name in skip_ops:
+            ctx.label("not-run:quadratic-at-this-size")
+            continue
         with ctx.sut("construct"):
             S, T = H.sp_of(shape, case["a"]), H.tn_of(shape, case["b"])
-        H.run_op(ctx, f"{name}/sp-tn", ts, lambda: H.SUT[name](S, T), lambda: H.NP[name](A, B), info,
-                 split=H.value_split(f"{name}/sp-tn", A, B, case), unsigned=uns)
+        R = H.run_op(ctx, f"{name}/sp-tn", ts, lambda: H.SUT[name](S, T), lambda: H.NP[name](A, B), info,
+                     split=H.value_split(f"{name}/sp-tn", A, B, case), unsigned=uns)
         H.check_unchanged(ctx, f"{name}/sp-tn", (S, A), (T, B))
+        if H.alias_turn(case, H.BINARY.index(name)):
+            H.check_alias(ctx, f"{name}/sp-tn", R, left=S, right=T)
 
 
 def _body_tnsp(ctx, case):
+    case = H.expand(case)
+    skip_ops = H.big_not_run("tn-sp", case)
     shape = case["shape"]
     A, B = H.dense_of(shape, case["a"]), H.dense_of(shape, case["b"])
     tags = H.tags_sptn(case)
@@ -114,12 +146,15 @@ def _body_tnsp(ctx, case):
     for name in H.BINARY:
         with ctx.sut("construct"):
             S, T = H.sp_of(shape, case["a"]), H.tn_of(shape, case["b"])
-        H.run_op(ctx, f"{name}/tn-sp", ts, lambda: H.SUT[name](T, S), lambda: H.NP[name](B, A), info, unsigned=uns,
-                 split=H.value_split(f"{name}/tn-sp", B, A, case))
+        R = H.run_op(ctx, f"{name}/tn-sp", ts, lambda: H.SUT[name](T, S), lambda: H.NP[name](B, A), info,
+                     unsigned=uns, split=H.value_split(f"{name}/tn-sp", B, A, case))
         H.check_unchanged(ctx, f"{name}/tn-sp", (S, A), (T, B))
+        if H.alias_turn(case, H.BINARY.index(name)):
+            H.check_alias(ctx, f"{name}/tn-sp", R, left=T, right=S)
 
 
 def _body_scalar(ctx, case):
+    case = H.expand(case)
     shape = case["shape"]
     A = H.dense_of(shape, case["a"])
     c = H.scalar_of(case)
@@ -135,22 +170,29 @@ def _body_scalar(ctx, case):
     for name in H.BINARY:
         with ctx.sut("construct"):
             S = H.sp_of(shape, case["a"])
-        H.run_op(ctx, f"{name}/sp-sc", ts, lambda: H.SUT[name](S, c), lambda: H.NP[name](A, float(c)), info,
-                 unsigned=uns, split=ezs)
+        R = H.run_op(ctx, f"{name}/sp-sc", ts, lambda: H.SUT[name](S, c), lambda: H.NP[name](A, float(c)), info,
+                     unsigned=uns, split=ezs)
         H.check_unchanged(ctx, f"{name}/sp-sc", (S, A))
+        if H.alias_turn(case, H.BINARY.index(name)):
+            H.check_alias(ctx, f"{name}/sp-sc", R, left=S)
     for name in H.REFLECTED_SCALAR:
         with ctx.sut("construct"):
             S = H.sp_of(shape, case["a"])
-        H.run_op(ctx, f"{name}/sc-sp", ts, lambda: H.SUT[name](c, S), lambda: H.NP[name](float(c), A), info,
-                 unsigned=uns, split=ezs)
+        R = H.run_op(ctx, f"{name}/sc-sp", ts, lambda: H.SUT[name](c, S), lambda: H.NP[name](float(c), A), info,
+                     unsigned=uns, split=ezs)
         H.check_unchanged(ctx, f"{name}/sc-sp", (S, A))
+        if H.alias_turn(case, H.BINARY.index(name) + 1):
+            H.check_alias(ctx, f"{name}/sc-sp", R, right=S)
     uts = ",".join([tags[0]] + H.extra_tags(case))
     with ctx.sut("construct"):
         S = H.sp_of(shape, case["a"])
-    H.run_op(ctx, "not/sp", uts, lambda: S.logical_not(), lambda: np.logical_not(A), info, split=ezs)
-    H.run_op(ctx, "neg/sp", uts, lambda: -S, lambda: -A, info, unsigned=uns, split=ezs)
-    H.run_op(ctx, "pos/sp", uts, lambda: +S, lambda: A, info, split=ezs)
+    R1 = H.run_op(ctx, "not/sp", uts, lambda: S.logical_not(), lambda: np.logical_not(A), info, split=ezs)
+    R2 = H.run_op(ctx, "neg/sp", uts, lambda: -S, lambda: -A, info, unsigned=uns, split=ezs)
+    R3 = H.run_op(ctx, "pos/sp", uts, lambda: +S, lambda: A, info, split=ezs)
     H.check_unchanged(ctx, "unary/sp", (S, A))
+    if ref.prod(shape) <= 400:
+        uname, R = (("not/sp", R1), ("neg/sp", R2), ("pos/sp", R3))[na % 3]
+        H.check_alias(ctx, uname, R, operand=S)
 
 
 # --------------------------------------------------------------------------
@@ -189,7 +231,9 @@ def scalar_enumerated(ctx, case):
 _HALF_VALUES = st.sampled_from([v / 2.0 for v in range(-6, 7) if v != 0])
 _SET_VALUES = st.sampled_from(list(H.VALUE_SET))
 _INT_VALUES = st.sampled_from([float(v) for v in range(-6, 7) if v != 0])
-_VKINDS = ["int", "int", "set", "half", "float", "tiny", "huge"]
+_VKINDS = ["int", "int", "set", "half", "float", "tiny", "huge", "xtiny", "xhuge"]
+_XSCALE = {"tiny": 1e-6, "huge": 1e6, "xtiny": 1e-200, "xhuge": 1e200}
+_NEAR = [1.0 + 2.0**-52, 1.0 - 2.0**-53, 1.0 + 1e-12, 1.0 - 1e-12, 1.0 + 1e-9, 1.0 - 1e-6]
 
 
 def _vstrat(vkind):
@@ -199,8 +243,10 @@ def _vstrat(vkind):
         return _SET_VALUES
     if vkind == "half":
         return _HALF_VALUES
-    if vkind in ("tiny", "huge"):  # every output entry is one IEEE operation: exact at any magnitude
-        return gen.NZ_GEN_VALUES.map((lambda v: v * 1e-6) if vkind == "tiny" else (lambda v: v * 1e6))
+    if vkind in _XSCALE:
+        # every output entry is one IEEE operation: exact at any magnitude, also where products / quotients of two
+        # entries underflow to zero or overflow to infinity (xtiny / xhuge: 1e-200 / 1e+200)
+        return gen.NZ_GEN_VALUES.map((lambda f: lambda v: v * f)(_XSCALE[vkind]))
     return gen.NZ_GEN_VALUES
 
 
@@ -294,13 +340,15 @@ def _pair_sampled(draw, tier, permute_b=True, any_shape=False):
         mb = draw(_mask(n, pb))
     ncommon = sum(1 for k in range(n) if mb[k] and va[k] != 0.0)
     # at a common position the second operand repeats the first one's value (a-b cancels exactly), its negation (a+b
-    # cancels exactly) or holds an unrelated value
-    same = iter(draw(st.lists(st.integers(0, 3), min_size=ncommon, max_size=ncommon)))
+    # cancels exactly), a value next to it (one ulp .. relative 1e-6 away: equal under every tolerance, not equal) or
+    # holds an unrelated value
+    same = iter(draw(st.lists(st.integers(0, 4), min_size=ncommon, max_size=ncommon)))
+    near = iter(draw(st.lists(st.sampled_from(_NEAR), min_size=ncommon, max_size=ncommon)))
     vb = [0.0] * n
     for k in range(n):
         if mb[k]:
             rel = next(same) if va[k] != 0.0 else 3
-            vb[k] = va[k] if rel == 0 else (-va[k] if rel == 1 else None)
+            vb[k] = va[k] if rel == 0 else (-va[k] if rel == 1 else (va[k] * next(near) if rel == 4 else None))
     nfresh = sum(1 for v in vb if v is None)
     fresh = iter(draw(st.lists(vs, min_size=nfresh, max_size=nfresh)))
     vb = [next(fresh) if v is None else v for v in vb]
@@ -317,12 +365,12 @@ def _scalar_sampled(draw, tier, any_shape=False):
     subsF = ref.all_subs_F(shape)
     ea = [(subsF[k], va[k]) for k in range(n) if va[k] != 0.0]
     a = _store(draw, ea)
-    how = draw(st.sampled_from(["zero", "stored", "neg-stored", "other", "other"]))
+    how = draw(st.sampled_from(["zero", "stored", "neg-stored", "near-stored", "other", "other"]))
     if how == "zero":
         c = 0.0
-    elif how in ("stored", "neg-stored") and ea:
+    elif how in ("stored", "neg-stored", "near-stored") and ea:
         c = draw(st.sampled_from([e[1] for e in ea]))
-        c = -c if how == "neg-stored" else c
+        c = -c if how == "neg-stored" else (c * draw(st.sampled_from(_NEAR)) if how == "near-stored" else c)
     else:
         c = draw(st.one_of(vs, st.sampled_from([-3.0, -1.0, 1.0, 3.0, 0.5, -0.5])))
     # a Python int scalar keeps the dtype of an integer array (NEP 50): it is only used where scalar and results fit
@@ -353,6 +401,178 @@ def tnsp_sampled(ctx, case):
 @cell("C03/scalar/sampled", strategy=_scalar_sampled, quick=400, thorough=8000, shards=(2, 8))
 def scalar_sampled(ctx, case):
     _body_scalar(ctx, case)
+
+
+# --------------------------------------------------------------------------
+# large operands: a few per run for every operator and operand kind.  Vectorised implementations process rows /
+# nonzeros in blocks; a case is large when nnz * cells * ndims (set difference against all subscripts: logical_not,
+# comparisons) and nnz(A) * nnz(B) * ndims (matching the entries of two operands) exceed a few million.  The oracle is
+# the same NumPy operator on the expanded arrays (at most 27000 cells).
+# --------------------------------------------------------------------------
+
+
+def _run_salt():
+    """Hypothesis starts every run of a cell with its simplest example (all draws minimal); with a handful of cases
+    per run that would be the same case every time, so the seed of the run is mixed into the drawn seed"""
+    import os
+    import zlib
+
+    return zlib.crc32(("salt" + os.environ.get("VERIF_SEED", "1")).encode())
+
+
+def _big_case(tier, pair=True, permute_b=True):
+    salt = _run_salt()
+    return st.integers(0, 2**32 - 1).map(lambda v: dict(big=dict(seed=(v ^ salt) & 0xFFFFFFFF, pair=pair,
+                                                                  permute_b=permute_b, simplest=v == 0)))
+
+
+def _big_labels(ctx, case):
+    if case["big"].get("simplest"):
+        ctx.skip("simplest-example-is-the-same-in-every-shard")
+    full = H.expand(case)
+    n, nd = ref.prod(full["shape"]), len(full["shape"])
+    na = len(full["a"]["subs"])
+    ctx.label("big-shape-" + "x".join(str(v) for v in full["shape"]),
+              "allsubs-comparisons-" + (">2^22" if na * n * nd > 2**22 else "<=2^22"))
+    if "b" in full:
+        ctx.label("pair-comparisons-" + (">2^22" if na * len(full["b"]["subs"]) * nd > 2**22 else "<=2^22"))
+
+
+@cell("C03/sp-sp/large", strategy=lambda tier: _big_case(tier, True, True), quick=2, thorough=16, shards=(1, 4))
+def spsp_large(ctx, case):
+    _big_labels(ctx, case)
+    _body_spsp(ctx, case)
+
+
+@cell("C03/sp-tn/large", strategy=lambda tier: _big_case(tier, True, False), quick=2, thorough=16, shards=(1, 4))
+def sptn_large(ctx, case):
+    _big_labels(ctx, case)
+    _body_sptn(ctx, case)
+
+
+@cell("C03/tn-sp/large", strategy=lambda tier: _big_case(tier, True, False), quick=2, thorough=16, shards=(1, 4))
+def tnsp_large(ctx, case):
+    _big_labels(ctx, case)
+    _body_tnsp(ctx, case)
+
+
+@cell("C03/scalar/large", strategy=lambda tier: _big_case(tier, False), quick=2, thorough=16, shards=(1, 4))
+def scalar_large(ctx, case):
+    _big_labels(ctx, case)
+    _body_scalar(ctx, case)
+
+
+# --------------------------------------------------------------------------
+# huge shapes: modes longer than 2**31 / 2**53 / 2**60, more than 2**63 cells; subscripts at the ends of the modes and
+# just above 2**53 (an index that passes through float64 loses its last bits; a linear key in int64 overflows)
+# --------------------------------------------------------------------------
+
+_HUGE_MODES = [2**40 + 7, 2**53 + 5, 2**53 + 5, 2**60 + 1, 2**62]  # (an accidental dense result fails at once)
+HUGE_LOCAL = ("add", "sub", "mul", "ne", "lt", "gt", "and", "or", "xor")
+
+
+@st.composite
+def _huge_sub(draw, shape):
+    row = []
+    for n in shape:
+        how = draw(st.sampled_from(["zero", "last", "last", "near-last", "above-2^53", "above-2^53", "any"]))
+        v = {"zero": 0, "last": n - 1, "near-last": max(0, n - 1 - draw(st.integers(1, 3))),
+             "above-2^53": 2**53 + draw(st.integers(0, 3))}.get(how)
+        if v is None or v >= n:
+            v = draw(st.integers(0, n - 1))
+        row.append(int(v))
+    return tuple(row)
+
+
+@st.composite
+def _huge_pair(draw, tier, scalar=False):
+    N = draw(st.integers(1, 3))
+    shape = [draw(st.sampled_from(_HUGE_MODES + [1, 2, 3])) for _ in range(N)]
+    if max(shape) < 2**40:
+        shape[draw(st.integers(0, N - 1))] = draw(st.sampled_from(_HUGE_MODES))
+    vs = draw(st.sampled_from([_INT_VALUES, _SET_VALUES, _HALF_VALUES]))
+    ka = sorted({draw(_huge_sub(shape)) for _ in range(draw(st.integers(0, 6)))})
+    a = {k: draw(vs) for k in ka}
+    if scalar:
+        c = draw(st.one_of(vs, st.sampled_from([0.0, 0.0, 1.0, -1.0]), st.sampled_from(list(a.values()) or [2.0])))
+        ckind = draw(st.sampled_from(["float", "npfloat"] + (["int"] if float(c).is_integer() else [])))
+        return dict(shape=shape, a=_store(draw, sorted(a.items())), c=float(c), ckind=ckind)
+    b = {}
+    for k in ka:
+        rel = draw(st.integers(0, 5))
+        if rel <= 3:
+            b[k] = a[k] if rel == 0 else (-a[k] if rel == 1 else (a[k] * draw(st.sampled_from(_NEAR)) if rel == 2 else draw(vs)))
+    for _ in range(draw(st.integers(0, 4))):
+        b.setdefault(draw(_huge_sub(shape)), draw(vs))
+    return dict(shape=shape, a=_store(draw, sorted(a.items())), b=_store(draw, sorted(b.items())))
+
+
+def _huge_labels(ctx, case):
+    sh = case["shape"]
+    ctx.label(f"order{len(sh)}", "cells>2^63" if ref.prod(sh) >= 2**63 else "cells<2^63",
+              "mode>2^53" if max(sh) > 2**53 else "mode<=2^53",
+              "subscript>2^53" if any(v > 2**53 for k in ("a", "b") if k in case for r in case[k]["subs"] for v in r)
+              else "subscripts<=2^53")
+
+
+@cell("C03/sp-sp/huge", strategy=lambda tier: _huge_pair(tier), quick=60, thorough=2000, shards=(1, 4))
+def spsp_huge(ctx, case):
+    """the operators with op(0, 0) == 0 on two sparse operands whose shape cannot be expanded"""
+    shape = case["shape"]
+    _huge_labels(ctx, case)
+    tags = H.tags_spsp(case)
+    ts = ",".join(tags)
+    ctx.label(*tags)
+    ea, eb = H.part_entries(case["a"]), H.part_entries(case["b"])
+    ctx.nt = len(ea) >= 1 and len(eb) >= 1 and set(ea) != set(eb)
+    info = f"shape={shape} a={case['a']} b={case['b']}"
+    for name in HUGE_LOCAL:
+        with ctx.sut("construct"):
+            S, S2 = H.sp_of(shape, case["a"]), H.sp_of(shape, case["b"])
+        try:
+            with ctx.sut(f"{name}/sp-sp [{ts}]"):
+                R = H.SUT[name](S, S2)
+        except Abort:
+            continue
+        H.check_huge_result(ctx, f"{name}/sp-sp", ts, R, shape, H.expected_local(name, ea, eb), info)
+        ctx.check(H.entries_of(S) == ea and H.entries_of(S2) == eb, f"{name}/sp-sp:operand-unchanged")
+
+
+@cell("C03/scalar/huge", strategy=lambda tier: _huge_pair(tier, scalar=True), quick=60, thorough=2000, shards=(1, 4))
+def scalar_huge(ctx, case):
+    """S op c, c op S and the unary operators where op(0, c) == 0 (the result stays sparse)"""
+    shape = case["shape"]
+    _huge_labels(ctx, case)
+    c = H.scalar_of(case)
+    tags = H.tags_scalar(dict(case, shape=[1]))  # (the tag `full` cannot apply)
+    ts = ",".join(tags)
+    ctx.label(*tags)
+    ea = H.part_entries(case["a"])
+    ctx.nt = len(ea) >= 1
+    info = f"shape={shape} a={case['a']} c={c!r}"
+    # (S + c, S - c, S.logical_or(c), S.logical_xor(c) are dense by design whatever c is: never run here)
+    plan = [(f"{n}/sp-sc", (lambda n: lambda S: H.SUT[n](S, c))(n), (lambda n: lambda v: H.NP[n](v, float(c)))(n))
+            for n in H.BINARY if n not in ("add", "sub", "or", "xor")]
+    plan += [(f"{n}/sc-sp", (lambda n: lambda S: H.SUT[n](c, S))(n), (lambda n: lambda v: H.NP[n](float(c), v))(n))
+             for n in H.REFLECTED_SCALAR]
+    plan += [("neg/sp", lambda S: -S, lambda v: -v), ("pos/sp", lambda S: +S, lambda v: +v)]
+    for name, call, npf in plan:
+        with np.errstate(all="ignore"):
+            at_zero = float(npf(np.float64(0.0)))
+            want = {k: float(npf(np.float64(v))) for k, v in ea.items()}
+        if at_zero != 0:  # the result is nonzero at every empty position: not representable at this size
+            ctx.label("not-run:nonzero-at-empty-positions")
+            continue
+        want = {k: v for k, v in want.items() if v != 0}
+        with ctx.sut("construct"):
+            S = H.sp_of(shape, case["a"])
+        try:
+            with ctx.sut(f"{name} [{ts}]"):
+                R = call(S)
+        except Abort:
+            continue
+        H.check_huge_result(ctx, name, ts, R, shape, want, info)
+        ctx.check(H.entries_of(S) == ea, f"{name}:operand-unchanged")
 
 
 # --------------------------------------------------------------------------
@@ -453,7 +673,7 @@ def _ne_dense_float_subs(case):
     return bool(np.any((A == 0) & (B != 0))) != bool(np.any((A != 0) & (A != B)))
 
 
-PREDICATES = {
+_PREDICATES = {
     # sptensor (op) sptensor
     "common_order_differs": H.common_order_differs,
     "common_order_differs_supports_equal": lambda c: H.common_order_differs(c) and not H.supports_differ(c),
@@ -481,3 +701,6 @@ PREDICATES = {
     # derived states
     "explicit_zero_operand": lambda c: H.explicit_zero_mask(c) is not None,
 }
+
+# a compact large case is expanded before a predicate looks at it
+PREDICATES = {k: (lambda f: lambda c: f(H.expand(c)))(f) for k, f in _PREDICATES.items()}
